@@ -1,13 +1,14 @@
 import Mathlib.Analysis.SpecialFunctions.Trigonometric.Inverse
+import TrackpyV.Model.Arc
 
 /-!
 Real-analysis side of the 2-D edge correction of `trackpy/static.py`
 (`circle_cap_arclen`, `circle_corner_arclen`, `arclen_2d_bounded`, static.py:264-277, 322-342).
 
-* `capArclen`, `cornerArclen`, `arclen2d` : the code's formulas over `ℝ` (same case split, same
-  argument order; `Real.arccos/arcsin` are the clamped inverse functions, the code only evaluates
-  them inside `[-1, 1]` under its masks).  The Float mirror executed by the driver is
-  `TrackpyV/Model/Arc.lean` (same expressions with `Float.acos/asin`).
+* the instance `Scalar ℝ` and the closed forms `capArclen`, `cornerArclen`, `arclen2d` of the
+  model's `circleCapArclen`, `circleCornerArclen`, `arclenRaw` (Model/Arc.lean — the definitions
+  the driver executes at `Float`) instantiated at `ℝ` (`*_real` lemmas; `Real.arccos/arcsin` are
+  the clamped inverse functions, the code only evaluates them inside `[-1, 1]` under its masks).
 * `Inside`, `insideIntervals`, `len`, `Covers` : the specification vocabulary — the set of
   directions of the circle that fall inside the box, as a finite list of closed intervals, and the
   total length of such a list.
@@ -18,18 +19,25 @@ Real-analysis side of the 2-D edge correction of `trackpy/static.py`
 namespace TrackpyV.Arc
 open Real
 
-/-! ### the code's formulas over ℝ -/
+/-! ### the model's formulas at ℝ -/
 
-/-- `circle_cap_arclen(h, r) = 2*r*np.arccos(h / r)` (static.py:264-267) -/
+/-- the real numbers as a `Scalar`: exact arithmetic, Mathlib's `arccos/arcsin` -/
+noncomputable instance : Scalar ℝ where
+  two := 2
+  pi := π
+  acos := arccos
+  asin := arcsin
+  lt a b := decide (a < b)
+
+/-- closed form of `circleCapArclen` at ℝ -/
 noncomputable def capArclen (h r : ℝ) : ℝ := 2 * r * arccos (h / r)
 
-/-- `circle_corner_arclen(h1, h2, r) = r*(np.arccos(h2 / r) - np.arcsin(h1 / r))`
-(static.py:270-277) -/
+/-- closed form of `circleCornerArclen` at ℝ -/
 noncomputable def cornerArclen (h1 h2 r : ℝ) : ℝ := r * (arccos (h2 / r) - arcsin (h1 / r))
 
-/-- `arclen_2d_bounded` before its NaN guard (static.py:322-339) for ONE pair, with
-`h = [hL, hR, hB, hT] = [x - xmin, xmax - x, y - ymin, ymax - y]`: the full circle, minus a cap
-for every side with `h < r`, plus a corner arc for each of the adjacent pairs
+/-- closed form of `arclenRaw` at ℝ (`arclen_2d_bounded` before its NaN guard, static.py:322-339)
+with `h = [hL, hR, hB, hT] = [x - xmin, xmax - x, y - ymin, ymax - y]`: the full circle, minus a
+cap for every side with `h < r`, plus a corner arc for each of the adjacent pairs
 `[0,2],[0,3],[1,2],[1,3]` (x-side first, y-side second) with `h1² + h2² < r²`. -/
 noncomputable def arclen2d (hL hR hB hT r : ℝ) : ℝ :=
   2 * π * r
@@ -39,6 +47,28 @@ noncomputable def arclen2d (hL hR hB hT r : ℝ) : ℝ :=
     + (if hL ^ 2 + hT ^ 2 < r ^ 2 then cornerArclen hL hT r else 0)
     + (if hR ^ 2 + hB ^ 2 < r ^ 2 then cornerArclen hR hB r else 0)
     + (if hR ^ 2 + hT ^ 2 < r ^ 2 then cornerArclen hR hT r else 0)
+
+theorem circleCapArclen_real (h r : ℝ) : circleCapArclen h r = capArclen h r := rfl
+
+theorem circleCornerArclen_real (h1 h2 r : ℝ) : circleCornerArclen h1 h2 r = cornerArclen h1 h2 r :=
+  rfl
+
+theorem capStep_real (r acc h0 : ℝ) :
+    capStep r acc h0 = acc - (if h0 < r then capArclen h0 r else 0) := by
+  show (if decide (h0 < r) = true then acc - capArclen h0 r else acc) = _
+  by_cases h : h0 < r <;> simp [h]
+
+theorem cornerStep_real (r acc h1 h2 : ℝ) :
+    cornerStep r acc h1 h2
+      = acc + (if h1 ^ 2 + h2 ^ 2 < r ^ 2 then cornerArclen h1 h2 r else 0) := by
+  show (if decide (h1 * h1 + h2 * h2 < r * r) = true then acc + cornerArclen h1 h2 r else acc) = _
+  rw [← pow_two, ← pow_two, ← pow_two]
+  by_cases h : h1 ^ 2 + h2 ^ 2 < r ^ 2 <;> simp [h]
+
+/-- the model's `arclenRaw`, instantiated at ℝ, is the closed form `arclen2d` -/
+theorem arclenRaw_real (hL hR hB hT r : ℝ) : arclenRaw hL hR hB hT r = arclen2d hL hR hB hT r := by
+  simp only [arclenRaw, capStep_real, cornerStep_real, arclen2d]
+  rfl
 
 /-! ### specification vocabulary -/
 
@@ -196,5 +226,26 @@ theorem quadrant_len (hr : 0 < r) (ha : 0 ≤ a) (hb : 0 ≤ b) :
   · have : ¬ arcsin (b / r) < arccos (a / r) := fun h' => h (hiff.1 h')
     have this := not_lt.1 this
     rw [max_eq_right (by linarith)]; linarith
+
+/-- sanity of `len`: non-overlapping sorted intervals inside `[lo, hi]` have total length at most
+`hi - lo` -/
+theorem len_le_of_sorted (I : List (ℝ × ℝ)) : ∀ (lo hi : ℝ), lo ≤ hi →
+    I.Pairwise (fun i j => i.2 ≤ j.1) → (∀ i ∈ I, lo ≤ i.1 ∧ i.2 ≤ hi) → len I ≤ hi - lo := by
+  induction I with
+  | nil => intro lo hi h _ _; simp [len]; linarith
+  | cons i rest ih =>
+    intro lo hi hlh hp hin
+    have hi' := hin i (List.mem_cons_self)
+    rw [List.pairwise_cons] at hp
+    have hlen : len (i :: rest) = max 0 (i.2 - i.1) + len rest := by simp [len]
+    rw [hlen]
+    rcases le_total (i.2 - i.1) 0 with hneg | hpos
+    · rw [max_eq_left hneg]
+      have := ih lo hi hlh hp.2 (fun j hj => hin j (List.mem_cons_of_mem _ hj))
+      linarith
+    · rw [max_eq_right hpos]
+      have := ih i.2 hi hi'.2 hp.2
+        (fun j hj => ⟨hp.1 j hj, (hin j (List.mem_cons_of_mem _ hj)).2⟩)
+      linarith
 
 end TrackpyV.Arc
